@@ -287,7 +287,7 @@ def c_env(mt, store_in_file=(), contexts=(), prefix=b''):
 
 def c_op(op):
     k = op[0]
-    if k == 'seg':
+    if k in ('seg', 'segreset'):
         return '(Seg %s)' % cbytes(op[1])
     if k == 'close':
         return 'PeerClose'
@@ -380,7 +380,7 @@ def run_cases(prop, dec, cases, checks, size=40, refs=None, runner=None, prefix=
     results = []
     terms = []
     for c in cases:
-        r = run(c['ops'], c['acceptor'], c.get('max_len', 65536))
+        r = run(c['ops'], c['acceptor'], c.get('max_len', 65536), **(dict(fail_sends=True) if c.get('fail_sends') else {}))
         results.append(r)
         o = obs_term(r)
         terms.append('(mkpc %s %s %d %s %s %s)' % (env, cbool(not c['acceptor']), c.get('max_len', 65536),
@@ -467,8 +467,8 @@ def ops_to_json(ops):
     out = []
     for op in ops:
         k = op[0]
-        if k == 'seg':
-            out.append(['seg', bytes(op[1]).hex()])
+        if k in ('seg', 'segreset'):
+            out.append([k, bytes(op[1]).hex()])
         elif k == 'user':
             out.append(['user', bytes(op[1].encode()).hex()])
         elif k == 'usermsg':
@@ -492,8 +492,8 @@ def ops_from_json(js):
     out = []
     for op in js:
         k = op[0]
-        if k == 'seg':
-            out.append(('seg', bytes.fromhex(op[1])))
+        if k in ('seg', 'segreset'):
+            out.append((k, bytes.fromhex(op[1])))
         elif k == 'user':
             out.append(('user', pdu_of(op[1])))
         elif k == 'usermsg':
@@ -561,8 +561,8 @@ def replay_case(prop, rec, checks):
 def short_ops(ops):
     out = []
     for op in ops:
-        if op[0] == 'seg':
-            out.append('seg:%s' % bytes(op[1]).hex())
+        if op[0] in ('seg', 'segreset'):
+            out.append('%s:%s' % (op[0], bytes(op[1]).hex()))
         elif op[0] == 'user':
             out.append('user:%s' % type(op[1]).__name__)
         elif op[0] == 'usermsg':
